@@ -151,7 +151,21 @@ func c12DriverOnce(cs c12Case, mode string) c12DrvRun {
 	w := &c12Writer{files: map[string]*bytes.Buffer{}}
 	fs := flag.NewFlagSet("pprof", flag.ContinueOnError)
 	fs.SetOutput(io.Discard)
-	args := []string{"-proto", "-output=out", "-symbolize=" + mode, "c12-source"}
+	args := []string{"-proto", "-output=out", "-symbolize=" + mode}
+	if cs.Exec != "" {
+		// `pprof binary profile`: the driver takes the first argument as the executable when the
+		// object tool can open it, and names the first (for a profile without mappings: the fake) mapping after it
+		exe := newTR(cs.Exec).str()
+		args = append(args, exe)
+		if len(files) > 0 {
+			f := files[0]
+			f.OpenErr, f.BuildID = false, ""
+			tool.files[exe] = f
+		} else {
+			tool.files[exe] = c12File{}
+		}
+	}
+	args = append(args, "c12-source")
 	for i := 1; i < cs.NSrc; i++ {
 		args = append(args, fmt.Sprintf("c12-source-%d", i+1))
 	}
@@ -437,6 +451,15 @@ func c12DriverProfile(r *Rng) *profile.Profile {
 		i := r.Intn(len(p.Sample) + 1)
 		p.Sample = append(p.Sample[:i], append([]*profile.Sample{s}, p.Sample[i:]...)...)
 	}
+	if r.Chance(10) { // a profile without any mapping (Go runtime legacy profiles)
+		p.Mapping = nil
+		for _, l := range p.Location {
+			l.Mapping = nil
+			if r.Chance(80) {
+				l.Line = nil
+			}
+		}
+	}
 	// ids as a profile.proto file or a Fetcher plug-in may carry them: not renumbered, so sparse
 	// (1,3,5…), unsorted, huge
 	switch r.Intn(5) {
@@ -564,6 +587,26 @@ func c12GenDriverCase(r *Rng) c12Case {
 	cs.Sources = "0"
 	if r.Chance(20) {
 		cs.NSrc = 2 + r.Intn(2)
+	}
+	if len(p.Mapping) == 0 && r.Chance(75) {
+		// `pprof binary profile` on a profile without mappings: the fake mapping [0,0) gets the
+		// executable as its file and reaches obj.Open; mostly local modes
+		cs.Exec = hexTok([]byte("/bin/c12-exec"))
+		cs.NSrc = 0
+		if len(files) == 0 {
+			var f c12File
+			for _, a := range c12Addrs(p) {
+				if r.Chance(80) {
+					f.Answers = append(f.Answers, c12Answer{Addr: a, Frames: r.c12Frames()})
+				}
+			}
+			cs.Files = c12Section(func(w *tw) { w.c12Files([]c12File{f}) })
+		}
+		if r.Chance(70) {
+			base = r.Pick([]string{"local", "fastlocal", "local:force", ""})
+			cs.Mode = hexTok([]byte(base))
+			cs.LocalOnly = strings.HasPrefix(base, "local") || strings.HasPrefix(base, "fastlocal")
+		}
 	}
 	return cs
 }
